@@ -346,6 +346,22 @@ func TestVerif_C03(t *testing.T) {
 			r.Pass(id)
 		}
 	}
+	for i := 0; i < r.Pick(12, 200); i++ {
+		id := fmt.Sprintf("cross-close-%d", i)
+		if !r.Mine(id) {
+			continue
+		}
+		cfg := rigCfg{Method: methods[i%4], NumConn: 1 + i%3, Seg: "all", Window: []int{4096, 16384, 65536}[i%3], Procs: []int{2, 4, 16}[i%3]}
+		r.Case(id, cfg)
+		k, d := c03CrossClose(t, r, id, cfg, []int{200000, 1 << 20}[i%2])
+		r.Distinct("cases", vk.Hash64("xc", cfg, i))
+		r.Count("cross_close_cases", 1)
+		if k != "" {
+			r.Violation(id, "C03:"+k, fmt.Sprintf("%s; crossing closes under back-pressure, cfg %+v", d, cfg), cfg)
+		} else {
+			r.Pass(id)
+		}
+	}
 	for i := 0; i < r.Pick(24, 300); i++ {
 		id := fmt.Sprintf("local-unread-%d", i)
 		if !r.Mine(id) {
@@ -363,4 +379,86 @@ func TestVerif_C03(t *testing.T) {
 			r.Pass(id)
 		}
 	}
+}
+
+// c03CrossClose: both sides are in the middle of large writes on different streams over
+// connections with bounded windows (so writes really block until the peer reads), and each side
+// closes the stream the other one is writing to. Every reader must see a prefix then the error,
+// every write must return, the other stream of the session must still carry data afterwards.
+func c03CrossClose(t *testing.T, r *vk.Reporter, id string, cfg rigCfg, big int) (kind, detail string) {
+	rng := r.Rand("c03x", id)
+	p, leftover := vk.InBubble(t, func() {
+		cfg.Inactivity = 100 * time.Hour
+		g := newRigA(cfg, rng)
+		for i := 0; i < g.nconn(); i++ {
+			g.addConn()
+		}
+		// streams X (client writes), Y (server writes), Z (ping-pong afterwards)
+		x, _ := g.cli.OpenStream()
+		x.Write([]byte("x-open"))
+		yc, _ := g.cli.OpenStream()
+		yc.Write([]byte("y-open"))
+		z, _ := g.cli.OpenStream()
+		z.Write([]byte("z-open"))
+		var sx, sy, sz *Stream
+		for k := 0; k < 3; k++ {
+			c, err := g.srv.Accept()
+			if err != nil {
+				kind, detail = "harness", err.Error()
+				return
+			}
+			st := c.(*Stream)
+			b := make([]byte, 6)
+			io.ReadFull(st, b)
+			switch string(b[:1]) {
+			case "x":
+				sx = st
+			case "y":
+				sy = st
+			default:
+				sz = st
+			}
+		}
+		if sx == nil || sy == nil || sz == nil {
+			kind, detail = "harness", "streams not accepted"
+			return
+		}
+		var wdone [2]bool
+		var rdone [2]bool
+		go func() { x.Write(make([]byte, big)); wdone[0] = true }()  // client mid-write on X
+		go func() { sy.Write(make([]byte, big)); wdone[1] = true }() // server mid-write on Y
+		go func() { io.Copy(io.Discard, sx); rdone[0] = true }()     // server reads X slowly: never mind
+		go func() { io.Copy(io.Discard, yc); rdone[1] = true }()
+		for k := 0; k < 30; k++ {
+			runtime.Gosched()
+		}
+		// crossing closes: the server closes X (which the client is writing), the client closes Y
+		go sx.Close()
+		go yc.Close()
+		vk.Wait()
+		time.Sleep(10 * time.Minute)
+		vk.Wait()
+		if !wdone[0] || !wdone[1] {
+			kind, detail = "write-blocked", fmt.Sprintf("writes in flight when the peer closed their streams never returned (client write returned=%v, server write returned=%v)", wdone[0], wdone[1])
+			return
+		}
+		if !rdone[0] || !rdone[1] {
+			kind, detail = "reader-parked", "a reader of a closed stream is still parked 10 virtual minutes later"
+			return
+		}
+		// the session must still work
+		msg := vk.Datagram(3, 3, 500)
+		z.Write(msg)
+		got := make([]byte, len(msg))
+		sz.SetReadDeadline(time.Now().Add(time.Minute))
+		if _, err := io.ReadFull(sz, got); err != nil || string(got) != string(msg) {
+			kind, detail = "session-stalled", fmt.Sprintf("after the crossing closes another stream of the same healthy session no longer carries data: %v", err)
+		}
+		g.closeAll()
+		vk.Wait()
+	})
+	if p != nil && !leftover && kind == "" {
+		kind, detail = "panic", fmt.Sprint(p)
+	}
+	return
 }
